@@ -61,7 +61,7 @@ func runC14(c *harness.Ctx, idx int) {
 			k      schema.Kind
 			ptr    bool
 			nocopy bool
-		}{{schema.String, false, true}, {schema.String, false, false}, {schema.Binary, false, true}, {schema.Binary, false, false}, {schema.String, true, true}, {schema.String, true, false}}
+		}{{schema.String, false, true}, {schema.String, false, false}, {schema.Binary, false, true}, {schema.Binary, false, false}, {schema.String, true, true}, {schema.String, true, false}, {schema.Binary, true, true}, {schema.Binary, true, false}}
 		for i, j := range r.Perm(len(forms)) {
 			f := forms[j]
 			t := schema.Scalar(f.k)
